@@ -11,7 +11,8 @@ use crate::topic::ref_matches;
 pub fn avoid_all() -> Avoid {
     Avoid {
         alias_wildcard: true,
-        resub_qos: true,
+        // R7 was repaired in /repo (a repeated subscription takes the new QoS over)
+        resub_qos: false,
         // R8 was repaired in /repo (one UNSUBACK per UNSUBSCRIBE, driven by the connection's own
         // subscription set)
         unsub_shape: false,
@@ -104,8 +105,8 @@ pub fn probe_r6() -> SimCampaign {
     c
 }
 
-/// Known finding R7: repeating a subscription with another QoS: SUBACK grants the new QoS,
-/// forwards keep the old one
+/// R7 (repaired in /repo): repeating a subscription with another QoS granted the new QoS in the
+/// SUBACK while forwards kept the old one. Kept as a focused campaign on repeated subscriptions.
 pub fn probe_r7() -> SimCampaign {
     let mut c = main_campaign();
     c.name = "probe_r7_resubscribe_qos";
@@ -118,8 +119,8 @@ pub fn probe_r7() -> SimCampaign {
     c.gen.w_unsubscribe = 0;
     c.flags.avoid.resub_qos = false;
     c.flags.strict_resub = true;
-    c.quick = 300;
-    c.thorough = 3000;
+    c.quick = 3000;
+    c.thorough = 60000;
     c.nontrivial = |s, _| if s.forwards > 0 { Some("resub".into()) } else { None };
     c.probes = vec!["delivery:wrong_qos"];
     c
@@ -133,7 +134,7 @@ pub fn plan(_tier: Tier) -> Plan {
         assumptions: vec![
             "The router is single-threaded; links interact with it only through the event channel and two mutex-protected buffers, so every real schedule is a partition of the event sequence into turns plus drain points — which is what the generator draws".into(),
             "Completeness is asserted only for streams whose unread backlog stayed below (segment_count-1)*segment_size bytes (retention-relaxed streams keep the safety clauses)".into(),
-            "Known-finding regions R6 (broker topic alias with wildcard filter), R7 (re-subscribe with another QoS) are excluded by construction and probed elsewhere (R8, UNSUBSCRIBE shapes, was repaired)".into(),
+            "Known-finding regions R6 (broker topic alias with wildcard filter) is excluded by construction and probed (R7, re-subscribe with another QoS, and R8, UNSUBSCRIBE shapes, were repaired and are generated everywhere)".into(),
         ],
         min_nontrivial: 20,
     }
